@@ -4,7 +4,7 @@ import sys, json, subprocess, os, re
 mode, n, seed = sys.argv[1], sys.argv[2], sys.argv[3]
 out = subprocess.run(['/verif/harness/bin/wharness','broker','gen','-n',n,'-seed',seed,'-mode',mode],stdout=subprocess.PIPE,stderr=subprocess.DEVNULL,text=True).stdout
 cases=[json.loads(l) for l in out.splitlines()]
-d='/verif/work/dbgo_%s'%mode
+d='/verif/work/dbgo_%s_%s'%(mode,seed)
 os.makedirs(d,exist_ok=True)
 with open(d+'/cases.v','w') as f:
     f.write('From Wasp Require Import Corr.Broker.\nOpen Scope string_scope.\nDefinition cases : list case := [\n'+';\n'.join(c['coq'] for c in cases)+'\n].\n')
